@@ -41,7 +41,16 @@ struct Mon {
 
 impl Mon {
     fn new(p: &Params) -> Mon {
-        Mon { p: *p, inst: Inst::new(p), t: 0, m: 0.0, w: VecDeque::new(), wh: VecDeque::new(), wl: VecDeque::new(), hmin: f64::INFINITY, hmax: f64::NEG_INFINITY, dead: false }
+        let mut inst = Inst::new(p);
+        // half of the monitored instances are recycled: used on unrelated data, then reset()
+        if (p.p[0] + p.kind as usize) % 2 == 0 {
+            for i in 0..(2 * p.max_period().min(40) + 3) {
+                let v = 17.25 + (i % 7) as f64 * 3.5;
+                let _ = inst.feed(&if p.kind.has_scalar() { In::S(v) } else { In::B(crate::inst::Bar { o: v, h: v + 1.0, l: v - 1.5, c: v + 0.25, v: 3.0 }) });
+            }
+            let _ = inst.reset();
+        }
+        Mon { p: *p, inst, t: 0, m: 0.0, w: VecDeque::new(), wh: VecDeque::new(), wl: VecDeque::new(), hmin: f64::INFINITY, hmax: f64::NEG_INFINITY, dead: false }
     }
     fn step(&mut self, rep: &mut Report, x: &In, hist: &[In]) -> Option<Out> {
         if self.dead {
@@ -86,6 +95,13 @@ impl Mon {
         }
         self.hmin = self.hmin.min(s);
         self.hmax = self.hmax.max(s);
+        // transparent identity changes at two points of the stream
+        if t == 2 * n + 2 {
+            self.inst.perturb(1);
+        }
+        if t == 3 * n + 5 {
+            self.inst.perturb(0);
+        }
         let out = match self.inst.feed(x) {
             Ok(o) => o,
             Err(pn) => {
